@@ -7,7 +7,7 @@ use crate::imp::{self, DecErr};
 use crate::refimpl::attrs::*;
 use crate::refimpl::crypto::{hex, unhex};
 use serde_json::{json, Value};
-use stun_types::attribute::{Attribute, AttributeExt, AttributeType, RawAttribute};
+use stun_types::attribute::{Attribute, AttributeExt, AttributeType, AttributeWriteExt, RawAttribute};
 
 fn wit_decode(kind: Kind, raw_ty: u16, value: &[u8], tid: &[u8; 12]) -> Value {
     json!({"kind": "typed-decode", "attr": kind.name(), "raw_type": raw_ty, "value": hex(value), "tid": hex(tid)})
@@ -157,7 +157,10 @@ pub fn check_encode(ctx: &mut Ctx, kind: Kind, val: &RefVal, tid: &[u8; 12]) {
             let raw = obj.to_raw();
             let bytes = raw.to_bytes();
             let back = imp::impl_decode(kind, &raw, tid).map(|d| d.val);
-            (raw.get_type().value(), raw.length(), raw.value.to_vec(), obj.length(), obj.get_type().value(), obj.padded_len(), bytes, back)
+            // the in-place writer, into a destination that is not zero-filled (a reused buffer)
+            let mut dirty = vec![0xA5u8; obj.padded_len() + 4];
+            let inplace = obj.write_into(&mut dirty).map(|n| dirty[..n].to_vec()).map_err(|e| format!("{e:?}"));
+            (raw.get_type().value(), raw.length(), raw.value.to_vec(), obj.length(), obj.get_type().value(), obj.padded_len(), bytes, back, inplace)
         })
     });
     match r {
@@ -179,7 +182,7 @@ pub fn check_encode(ctx: &mut Ctx, kind: Kind, val: &RefVal, tid: &[u8; 12]) {
             "Ok (the value is within the documented limits)".into(),
             format!("Err({e})"),
         ),
-        Ok(Ok((rty, rlen, rval, len, ty, padded, bytes, back))) => {
+        Ok(Ok((rty, rlen, rval, len, ty, padded, bytes, back, inplace))) => {
             ctx.count(&format!("encode:{}", kind.name()));
             let mut wire = vec![(kind.code() >> 8) as u8, kind.code() as u8, (want.len() >> 8) as u8, want.len() as u8];
             wire.extend_from_slice(&want);
@@ -195,6 +198,17 @@ pub fn check_encode(ctx: &mut Ctx, kind: Kind, val: &RefVal, tid: &[u8; 12]) {
                     w,
                     format!("wire {}", hex(&wire)),
                     format!("type {rty:#06x}/{ty:#06x} len {rlen}/{len} padded {padded} bytes {}", hex(&bytes)),
+                );
+            }
+            if inplace.as_deref() != Ok(wire.as_slice()) {
+                ctx.violation(
+                    "C08",
+                    "encode-layout",
+                    "AttributeWrite::write_into",
+                    kind.name(),
+                    w,
+                    format!("wire {}", hex(&wire)),
+                    format!("written into a 0xA5-filled destination: {}", inplace.as_ref().map(|b| hex(b)).unwrap_or_else(|e| format!("Err({e})"))),
                 );
             }
             match back {
